@@ -16,7 +16,7 @@ THEOREMS = {
     "C10": [("Flurry.Props.C10Arith", [
         "Flurry.C10.stamp_negative", "Flurry.C10.stamp_low_zero", "Flurry.C10.stamp_injective",
         "Flurry.C10.stamp_room", "Flurry.C10.initiate_is_two", "Flurry.C10.finisher_iff",
-        "Flurry.C10.join_leave", "Flurry.C10.join_refused_iff", "Flurry.C10.threshold_after",
+        "Flurry.C10.join_leave", "Flurry.C10.help_refuses_other_generation", "Flurry.C10.help_same_generation_iff", "Flurry.C10.join_refused_add_count", "Flurry.C10.threshold_after",
         "Flurry.C10.double_exact"])],
     "C14": [("Flurry.Props.C14Arith", [
         "Flurry.C14.table_size_pow2", "Flurry.C14.table_size_le_max", "Flurry.C14.same_rounding",
@@ -202,7 +202,9 @@ def seq_step(R, prop, own_classes=None, seeds=None, life=False):
                 found_fail = True
                 m = re.search(r"\[case-seed (\d+)\]", f)
                 R.add_failing(f, {"suite": "seq", "how": "%s seq-replay --case-seed %s --max-ops %d" % (C.HARNESS_BIN, m.group(1) if m else "?", t["seq_ops"]), "failure": f})
-        if not res["model_ran"]:
+        if res.get("model_error"):
+            R.add_broken("correspondence seq-model-vs-implementation: the model driver failed on the generated operations (%s)" % res["model_error"][:300])
+        elif not res["model_ran"]:
             R.notes.append("model driver unavailable: implementation-level oracles only")
         for d in res["diffs"]:
             if set(d["classes"]) <= {"order"}:
@@ -248,8 +250,11 @@ def conc_props_of(f):
 def conc_step(R, prop, extra_args=None, cases=None, suite="conc", modes=("mixed",), merge=False):
     prev = dict(R.cov) if merge else None
     total = None
+    # the regression scenarios (scripted schedules of past findings) run first, then the generators
+    modes = ("scenario",) + tuple(m for m in modes if m != "scenario")
     for mode in modes:
-        _conc_step_one(R, prop, (extra_args or []) + ["--mode", mode], (cases or TIERS[R.tier]["conc_cases"]) // len(modes), suite)
+        ncases = 50 if mode == "scenario" else (cases or TIERS[R.tier]["conc_cases"]) // (len(modes) - 1)
+        _conc_step_one(R, prop, (extra_args or []) + ["--mode", mode] + (["--budget", "400000"] if mode == "scenario" else []), ncases, suite)
         sc = R.cov.get("scheduled", {})
         if total is None:
             total = dict(sc)
@@ -312,7 +317,7 @@ def _conc_step_one(R, prop, extra_args=None, cases=None, suite="conc"):
                 f = "[crash] the harness process died (exit %d) while running %s: memory corruption or abort inside the implementation" % (rc, where)
                 if prop in CONC_TAGS["crash"]:
                     m = re.search(r"case-seed (\d+)", where)
-                    R.add_failing(f, {"suite": suite, "how": "%s %s --case-seed %s --verbose 1" % (C.HARNESS_BIN, suite, m.group(1) if m else "?")})
+                    R.add_failing(f, {"suite": suite, "how": "%s %s %s --case-seed %s --verbose 1" % (C.HARNESS_BIN, suite, " ".join(extra_args or []), m.group(1) if m else "?")})
                 crashed = True
                 continue
             rep = json.loads(lines[-1])
@@ -323,7 +328,7 @@ def _conc_step_one(R, prop, extra_args=None, cases=None, suite="conc"):
             for f in rep["failures"]:
                 if prop in conc_props_of(f):
                     m = re.search(r"\[case-seed (\d+)\]", f)
-                    R.add_failing(f, {"suite": suite, "how": "%s %s --case-seed %s --verbose 1" % (C.HARNESS_BIN, suite, m.group(1) if m else "?")})
+                    R.add_failing(f, {"suite": suite, "how": "%s %s %s --case-seed %s --verbose 1" % (C.HARNESS_BIN, suite, " ".join(extra_args or []), m.group(1) if m else "?")})
             if os.path.exists(b + ".lin"):
                 lin_src += open(b + ".lin").read().splitlines()
         for b, _ in procs:
